@@ -77,6 +77,8 @@ class LimitedRateLimiter(RateLimiter):
 
     def __init__(self, limit_kbps: int):
         super().__init__(limit_bps=limit_kbps * 1024)
+        # Waiting connections are served first-come first-served
+        self._lock: asyncio.Lock = asyncio.Lock()
 
     def is_empty(self) -> bool:
         return self.bucket < self.MIN_BUCKET_SIZE
@@ -96,13 +98,18 @@ class LimitedRateLimiter(RateLimiter):
         return self.is_empty()
 
     async def take_tokens(self) -> int:
-        while True:
-            is_empty = self.refill()
-            if not is_empty:
-                self.bucket -= self.MIN_BUCKET_SIZE
-                return self.MIN_BUCKET_SIZE
+        # Only the connection at the head of the queue polls the bucket. When
+        # every waiter polls on its own a connection can be overtaken for ever
+        # by connections whose poll happens to come right after the bucket
+        # reached the minimum
+        async with self._lock:
+            while True:
+                is_empty = self.refill()
+                if not is_empty:
+                    self.bucket -= self.MIN_BUCKET_SIZE
+                    return self.MIN_BUCKET_SIZE
 
-            await asyncio.sleep(INTERVAL)
+                await asyncio.sleep(INTERVAL)
 
     def add_tokens(self, token_amount: int):
         self.bucket += token_amount
